@@ -15,7 +15,16 @@ for d in preserving/*/; do
   id=$(basename $d)
   out=$(tools/run_preserving.sh $d 2>&1)
   bad=$(echo "$out" | grep -E "exit=[12]|does not apply|refusing" | tr '\n' ' ')
-  if [ -z "$bad" ]; then echo "silent   $id"; else echo "FLAGGED  $id  $bad"; [ "$id" = "C12-PB" ] || fail=1; fi
+  # checks that meta.json expects to flag this change (it breaks THAT property after all)
+  expected=$(python3 -c "import json; print(' '.join(json.load(open('$d/meta.json')).get('expected_flags', [])))")
+  unexpected=""
+  for p in $(echo "$out" | grep -E "exit=[12]" | awk '{print $3}'); do
+    case " $expected " in *" $p "*) ;; *) unexpected="$unexpected $p";; esac
+  done
+  if echo "$out" | grep -qE "does not apply|refusing"; then unexpected="$unexpected (patch)"; fi
+  if [ -z "$bad" ]; then echo "silent   $id"
+  elif [ -z "$unexpected" ]; then echo "flagged as expected  $id  ($expected)"
+  else echo "FLAGGED  $id  $bad"; fail=1; fi
 done
 rm -rf "${SIMPLC_OUT_DIR:-/tmp/simplc-sensitivity-out}"
 exit $fail
